@@ -435,4 +435,152 @@ theorem buildReloaded_acct {E : Type} {g : Graph} (gok : GraphOK g) (a : Args) (
       intr (sf (buildReloaded g a c e n0).1.trace) = false) :=
   phase2_acct gok a c _ _ _ _ n0 (fresh_inv g a) (fresh_ainv a hk)
 
+/-! ### The `BUG` panic is unreachable -/
+
+theorem fresh_pinv (g : Graph) (a : Args) : PInv g (fresh a) :=
+  ⟨(fun b hb => by cases hb), (fun b hb => by cases hb), (fun b hb => by cases hb),
+   (fun b hb => absurd rfl hb), (fun b hb => by cases hb)⟩
+
+theorem ofRun_bug (r : RunResult) (h : ofRun r = .bug) : r = .bug := by
+  cases r <;> simp [ofRun] at h ⊢
+
+theorem phase2_no_bug {E : Type} {g : Graph} (gok : GraphOK g) (dok : DepsOK g) (acyc : Acyclic g) (a : Args)
+    (hpar : 0 < a.par) (c : Choices E) (s2 : S) (e : E) (perms : List (List Nat)) (fin : List (Nat × Term))
+    (n0 : Nat) (inv : Inv g a.par s2) (pi : PInv g s2) :
+    (phase2 g a c s2 e perms fin n0).2.2 ≠ .bug := by
+  unfold phase2
+  have hw : WRRel g a.par s2 (if !a.targets.isEmpty then wantTargets g a s2 a.targets
+      else if !a.defaults.isEmpty then wantAll g s2 a.defaults
+      else wantAll g s2 ((List.range g.nFiles).filter (· ≠ a.manifest))) := by
+    split
+    · exact wantTargets_rel a gok _ _ _ (WRel.refl inv)
+    · split
+      · exact wantAll_rel gok _ _ _ (WRel.refl inv)
+      · exact wantAll_rel gok _ _ _ (WRel.refl inv)
+  simp only []
+  generalize (if !a.targets.isEmpty then wantTargets g a s2 a.targets
+      else if !a.defaults.isEmpty then wantAll g s2 a.defaults
+      else wantAll g s2 ((List.range g.nFiles).filter (· ≠ a.manifest))) = w at hw ⊢
+  cases w with
+  | ok u s3 =>
+    simp only []
+    have hr := runLoop_no_bug dok acyc hpar c (runFuel g) s3 e perms fin hw.inv (hw.pinv pi)
+    cases hres : (runLoop g a.par c (runFuel g) s3 e perms fin).result with
+    | ok b => cases b <;> simp [ofRun]
+    | bug => exact absurd hres hr.1
+    | _ => simp [ofRun]
+  | err m s3 => simp
+  | bad m => simp
+
+/-- **`run::build` never ends in n2's `BUG: no work to do and runner not running` panic**: for
+    every acyclic graph with consistent cross references, `-j ≥ 1`, and every behaviour of the
+    environment (dirty answers, completion order, failures, interruptions). -/
+theorem build_no_bug {E : Type} {g : Graph} (gok : GraphOK g) (dok : DepsOK g) (acyc : Acyclic g) (a : Args)
+    (hpar : 0 < a.par) (c : Choices E) (e : E) : (build g a c e).2.2 ≠ .bug := by
+  unfold build
+  simp only []
+  have hw := want_rel gok (fresh a) a.manifest (fresh_inv g a)
+  cases hwant : want g (fresh a) a.manifest with
+  | ok u s1 =>
+    rw [hwant] at hw
+    simp only []
+    have hr := runLoop_no_bug dok acyc hpar c (runFuel g) s1 e c.perms c.finishes hw.inv (hw.pinv (fresh_pinv g a))
+    cases hres : (runLoop g a.par c (runFuel g) s1 e c.perms c.finishes).result with
+    | ok b =>
+      cases b with
+      | true =>
+        simp only []
+        split
+        · simp
+        · exact phase2_no_bug gok dok acyc a hpar c _ _ _ _ 0 (runLoop_inv c _ _ _ _ _ hw.inv hres) (hr.2 hres)
+      | false => simp [ofRun]
+    | bug => exact absurd hres hr.1
+    | _ => simp [ofRun]
+  | err m s1 => simp
+  | bad m => simp
+
+theorem buildReloaded_no_bug {E : Type} {g : Graph} (gok : GraphOK g) (dok : DepsOK g) (acyc : Acyclic g)
+    (a : Args) (hpar : 0 < a.par) (c : Choices E) (e : E) (n0 : Nat) :
+    (buildReloaded g a c e n0).2.2 ≠ .bug :=
+  phase2_no_bug gok dok acyc a hpar c _ _ _ _ n0 (fresh_inv g a) (fresh_pinv g a)
+
+/-! ### Success means every wanted step is up to date -/
+
+theorem settled_of {g : Graph} {par : Nat} {s : S} (inv : Inv g par s) (pi : PInv g s) (hp : s.pending ≤ 0)
+    (htf : s.tasksFailed = 0) (b : Nat) : s.st b = .unknown ∨ s.st b = .done := by
+  have hz : cnt g.nBuilds (fun b => active (s.st b)) = 0 := by
+    have := inv.pending; omega
+  cases hs : s.st b with
+  | unknown => exact Or.inl rfl
+  | done => exact Or.inr rfl
+  | failed => have := pi.fld b hs; omega
+  | _ =>
+    exfalso
+    have hlt : b < g.nBuilds := inv.valid b (by rw [hs]; simp)
+    have := cnt_zero_forall _ _ hz b hlt
+    simp [hs, active] at this
+
+theorem phase2_done_settled {E : Type} {g : Graph} (gok : GraphOK g) (dok : DepsOK g) (acyc : Acyclic g)
+    (a : Args) (hpar : 0 < a.par) (c : Choices E) (s2 : S) (e : E) (perms : List (List Nat))
+    (fin : List (Nat × Term)) (n0 n : Nat) (inv : Inv g a.par s2) (pi : PInv g s2)
+    (h : (phase2 g a c s2 e perms fin n0).2.2 = .done n) (b : Nat) :
+    (phase2 g a c s2 e perms fin n0).1.st b = .unknown ∨ (phase2 g a c s2 e perms fin n0).1.st b = .done := by
+  unfold phase2 at h ⊢
+  have hw : WRRel g a.par s2 (if !a.targets.isEmpty then wantTargets g a s2 a.targets
+      else if !a.defaults.isEmpty then wantAll g s2 a.defaults
+      else wantAll g s2 ((List.range g.nFiles).filter (· ≠ a.manifest))) := by
+    split
+    · exact wantTargets_rel a gok _ _ _ (WRel.refl inv)
+    · split
+      · exact wantAll_rel gok _ _ _ (WRel.refl inv)
+      · exact wantAll_rel gok _ _ _ (WRel.refl inv)
+  simp only [] at h ⊢
+  generalize (if !a.targets.isEmpty then wantTargets g a s2 a.targets
+      else if !a.defaults.isEmpty then wantAll g s2 a.defaults
+      else wantAll g s2 ((List.range g.nFiles).filter (· ≠ a.manifest))) = w at hw h ⊢
+  cases w with
+  | ok u s3 =>
+    simp only [] at h ⊢
+    have hr := runLoop_no_bug dok acyc hpar c (runFuel g) s3 e perms fin hw.inv (hw.pinv pi)
+    cases hres : (runLoop g a.par c (runFuel g) s3 e perms fin).result with
+    | ok bb =>
+      cases bb with
+      | true =>
+        simp only [hres]
+        have hok := runLoop_ok_true g a.par c _ _ _ _ _ hres
+        exact settled_of (runLoop_inv c _ _ _ _ _ hw.inv hres) (hr.2 hres) hok.2 hok.1 b
+      | false => simp [hres, ofRun] at h
+    | _ => simp [hres, ofRun] at h
+  | err m s3 => simp at h
+  | bad m => simp at h
+
+/-- **If `run::build` reports success, every step it wanted is up to date**: every build is
+    either untouched (`Unknown`: outside the requested closure) or `Done`; none is left waiting,
+    queued, running or failed. -/
+theorem build_done_settled {E : Type} {g : Graph} (gok : GraphOK g) (dok : DepsOK g) (acyc : Acyclic g)
+    (a : Args) (hpar : 0 < a.par) (c : Choices E) (e : E) (n : Nat) (h : (build g a c e).2.2 = .done n)
+    (b : Nat) : (build g a c e).1.st b = .unknown ∨ (build g a c e).1.st b = .done := by
+  unfold build at h ⊢
+  simp only [] at h ⊢
+  have hw := want_rel gok (fresh a) a.manifest (fresh_inv g a)
+  cases hwant : want g (fresh a) a.manifest with
+  | ok u s1 =>
+    rw [hwant] at hw
+    simp only [hwant] at h ⊢
+    have hr := runLoop_no_bug dok acyc hpar c (runFuel g) s1 e c.perms c.finishes hw.inv (hw.pinv (fresh_pinv g a))
+    cases hres : (runLoop g a.par c (runFuel g) s1 e c.perms c.finishes).result with
+    | ok bb =>
+      cases bb with
+      | true =>
+        simp only [hres] at h ⊢
+        split
+        · rename_i hne; simp [hne] at h
+        · rename_i h0
+          simp only [h0, if_false] at h
+          exact phase2_done_settled gok dok acyc a hpar c _ _ _ _ 0 n (runLoop_inv c _ _ _ _ _ hw.inv hres) (hr.2 hres) h b
+      | false => simp [hres, ofRun] at h
+    | _ => simp [hres, ofRun] at h
+  | err m s1 => simp [hwant] at h
+  | bad m => simp [hwant] at h
+
 end N2V.Run
